@@ -147,7 +147,11 @@ func (c *child) runCase(line string) (string, bool) {
 	}
 	c.cases++
 	start := time.Now()
-	soft := time.NewTimer(wallSoft)
+	first := wallSoft
+	if strings.HasPrefix(line, "scale ") { // long histories carry their own per-call watchdog
+		first = 10 * time.Minute
+	}
+	soft := time.NewTimer(first)
 	defer soft.Stop()
 	for {
 		select {
@@ -205,6 +209,12 @@ func newPool(n int) *pool {
 					c = startChild()
 				}
 				o, ok := c.runCase(j.line)
+				if o == "fuel" { // confirm on a fresh worker: a starved machine must not look like a hang
+					atomic.AddInt64(&hangs, -1)
+					c.kill()
+					c = startChild()
+					o, ok = c.runCase(j.line)
+				}
 				*j.res = o
 				j.wg.Done()
 				if !ok {
